@@ -27,7 +27,7 @@ func vp_C04_hashfail() {
 
 	var m map[string]spec.RawJSON
 	vpAssume(json.Unmarshal(ev.JSON(), &m) == nil)
-	tamper := vpChoice("tamper", "none", "content-key", "extra-top-key", "stripped-key", "hash")
+	tamper := vpChoice("tamper", "none", "content-key", "extra-top-key", "top-level-redacts", "stripped-key", "hash")
 	switch tamper {
 	case "content-key":
 		var c map[string]spec.RawJSON
@@ -51,6 +51,9 @@ func vp_C04_hashfail() {
 		default:
 			m["destinations"] = vpJArr("y")
 		}
+	case "top-level-redacts":
+		// a redactable top-level key that has an accessor of its own
+		m["redacts"] = vpJVal("$victim:x")
 	case "hash":
 		m["hashes"] = vpJObj("sha256", "AAAAAAAAAAAAAAAAAAAAAAAAAAAAAAAAAAAAAAAAAAA")
 	}
@@ -61,7 +64,10 @@ func vp_C04_hashfail() {
 	if err != nil {
 		return
 	}
-	wantRedacted := tamper == "content-key" || tamper == "extra-top-key" || tamper == "hash"
+	wantRedacted := tamper == "content-key" || tamper == "extra-top-key" || tamper == "hash" || tamper == "top-level-redacts"
+	// material kept by redaction (hashes; in v11+ every content key of m.room.create) is covered by the event ID and the
+	// signatures: altering it legitimately changes both
+	protectedAltered := tamper == "hash" || (tamper == "content-key" && vpKeepContent(algo, ev.Type(), "body"))
 	vpAssert("redacted-flag", got.Redacted() == wantRedacted)
 	vpAssert("type", got.Type() == ev.Type())
 	vpAssert("sender", got.SenderID() == ev.SenderID())
@@ -69,9 +75,13 @@ func vp_C04_hashfail() {
 	vpAssert("state-key", vpSameStateKey(got.StateKey(), ev.StateKey()))
 	// `hashes` itself is kept by redaction, so replacing it legitimately changes the ID and breaks the signature;
 	// the "same ID / same signature validity" clause concerns alterations of redactable material only.
-	if verImpl.EventIDFormat() != EventIDFormatV1 && tamper != "hash" {
+	if verImpl.EventIDFormat() != EventIDFormatV1 && !protectedAltered {
 		vpAssert("id-of-original", got.EventID() == ev.EventID())
 	}
+	if tamper == "top-level-redacts" && algo < 5 {
+		vpAssert("tampered-redacts-not-observable", got.Redacts() == "")
+	}
+	vpAssert("sticky-not-observable", !got.IsSticky(time.Unix(1700000000, 0), time.Unix(1700000000, 0)))
 	// visible content
 	var c map[string]spec.RawJSON
 	vpAssert("content-parses", json.Unmarshal(got.Content(), &c) == nil)
@@ -95,7 +105,7 @@ func vp_C04_hashfail() {
 	red, err := verImpl.RedactEventJSON(got.JSON())
 	vpAssert("redactable", err == nil)
 	if err == nil {
-		vpAssert("signature-of-original", (VerifyJSON("x", "ed25519:1", pub, red) == nil) == (tamper != "hash"))
+		vpAssert("signature-of-original", (VerifyJSON("x", "ed25519:1", pub, red) == nil) == !protectedAltered)
 	}
 	vpReach("redacted", got.Redacted())
 	vpReach("intact", !got.Redacted())
